@@ -571,6 +571,14 @@ func printable(s string) string {
 }
 
 func runE2E(ctx *hk.RunCtx, only *uint64) error {
+	if only != nil && *only >= clusterBase {
+		runCluster(ctx, 0, only)
+		return nil
+	}
+	if only == nil && ctx.From == 0 {
+		// leader + follower through the leader's own queryCluster (cluster.go)
+		runCluster(ctx, ctx.N/5, nil)
+	}
 	var env *e2eEnv
 	var err error
 	for attempt := 0; attempt < 2; attempt++ {
